@@ -47,6 +47,8 @@ def classify(case, result):
         site = f"kernel:{f[1]}:{cls}"
     elif kind == "d":
         site = f"depth:{f[1]}:{cls}"
+    elif kind == "f":
+        site = f"format:{'printf' if f[1] == 'p' else 'strformat'}:{cls}"
     elif kind in ("t", "e"):
         label = f[1]
         if label.startswith("mut"):
@@ -101,7 +103,7 @@ def run_profile(r, exe, profile, model_cache):
     n_seen = 0
     for case, modes in by_case.items():
         f = case.split(" ")
-        stream = {"k": "kernels", "d": "depth", "t": "templates", "e": "expressions"}.get(f[0], "other")
+        stream = {"k": "kernels", "d": "depth", "t": "templates", "e": "expressions", "f": "format-grammar"}.get(f[0], "other")
         if f[0] in ("t", "e"):
             stream = "mutants" if f[1].startswith("mut") else "builtins"
         for mode, res in sorted(modes.items()):
